@@ -5,7 +5,7 @@ from props import poolcommon as pc
 
 MANIFEST = dict(
     text="Theorems: no signal unless due (not after the result was handled, not without an effective limit); the soft step is taken only for an unmarked job and marks it; a marked job gets nothing more until the hard limit; the mark survives later scans while the job is cached; callback gets (soft=True, job's soft limit); signal goes to the owner; hard has priority; job limit precedence. Positive direction: when the soft limit is due and the worker is in the pool the signal IS sent and the callback run with the job's limit; when the worker has left the pool nothing is sent and the job is remembered all the same.",
-    note='Trusted: Coq kernel; hand-written model Model/Pool.v validated on every run against the real billiard.pool parent-side code (harness/pool_driver.py: fake processes, fake clock, recorded signals); event-level atomicity; worker side and OS not modelled here (C03 covers the worker loop). Partial: delivery of SIGUSR1 into the right Python frame and the task catching it are runtime behaviour (validated in thorough tier only); the result-arrives-mid-scan interleaving is at scan grain here.',
+    note='Trusted: Coq kernel; hand-written model Model/Pool.v validated on every run against the real billiard.pool parent-side code (harness/pool_driver.py: fake processes, fake clock, recorded signals); event-level atomicity; worker side and OS not modelled here (C03 covers the worker loop). Partial: delivery of SIGUSR1 into the right Python frame and the task catching it are runtime behaviour (validated in thorough tier only); the result-arrives-mid-scan interleaving is at scan grain here. Interleavings below the event grain (the timeout scan running inside ApplyResult._ack while its on_timeout_set hook runs, or inside ApplyResult._set while the result callback runs) are not in the model: they are driven on the real code as hook cases and judged by monitors only (exactly one soft signal / none).',
     technique='Coq proof (invariants by induction over all event histories of an executable pool model) + differential correspondence against the real parent-side code',
     ref='5.6',
 )
